@@ -82,7 +82,7 @@ def run(tier, seed, started):
     c = res.counters
     shapes = res.sets.get('shapes', set())
     if shapes != {'single', 'double', 'short', 'forced', 'midbatch'} or not c.get('fresh_server_comparisons'):
-        raise common.Broken(f'vacuous C03 run: {shapes} {c}')
+        common.vacuous(PROP, res, f'vacuous C03 run: {shapes} {c}')
     if c.get('max:midbatch_steps', 0) >= 260:
         raise common.Broken('mid-batch switch positions do not cover the whole batch')
     coverage = {
